@@ -19,9 +19,9 @@ type ScriptReader struct {
 	Final   string // "eof" | "dataeof" | "err"
 	FinData []byte
 	// observation
-	Pulled  int  // bytes handed out so far
-	SawEnd  bool // a Read reported EOF or an error
-	Reads   int
+	Pulled int  // bytes handed out so far
+	SawEnd bool // a Read reported EOF or an error
+	Reads  int
 }
 
 func (s *ScriptReader) Read(p []byte) (int, error) {
@@ -74,12 +74,12 @@ type Ctx struct {
 	attachment netty.Attachment
 }
 
-func (c *Ctx) Channel() netty.Channel          { return c.Ch }
-func (c *Ctx) Handler() netty.Handler          { return nil }
-func (c *Ctx) Write(m netty.Message)           { c.HandleWrite(m) }
-func (c *Ctx) Trigger(netty.Event)             {}
-func (c *Ctx) Close(error)                     {}
-func (c *Ctx) Attachment() netty.Attachment    { return c.attachment }
+func (c *Ctx) Channel() netty.Channel           { return c.Ch }
+func (c *Ctx) Handler() netty.Handler           { return nil }
+func (c *Ctx) Write(m netty.Message)            { c.HandleWrite(m) }
+func (c *Ctx) Trigger(netty.Event)              {}
+func (c *Ctx) Close(error)                      {}
+func (c *Ctx) Attachment() netty.Attachment     { return c.attachment }
 func (c *Ctx) SetAttachment(a netty.Attachment) { c.attachment = a }
 func (c *Ctx) HandleRead(m netty.Message) {
 	c.Reads = append(c.Reads, m)
